@@ -652,6 +652,65 @@ pub fn run(ctx: Ctx) -> Report {
                 }
             }
         }
+        // ---- names that the tunnel's one-byte length field cannot carry (more than 255 bytes, though not more than
+        // 255 characters): the open must fail, and nothing may be dialled on its behalf — one at a time, so that
+        // every server-side event in the window belongs to the request
+        use anytls_rs::verif::Event;
+        let long_names: Vec<String> = vec![format!("{}.test", "é".repeat(130)), "€".repeat(86), format!("{}{}", "a".repeat(200), "é".repeat(30)), format!("{}.{}", "ü".repeat(126), "x".repeat(10)), "é".repeat(255)];
+        for name in &long_names {
+            for via_http in [false, true] {
+                let before = anytls_rs::verif::event_count();
+                let accepts_before = w.accepts.lock().unwrap().len();
+                let connected: Result<bool, String> = if !via_http {
+                    match tokio::time::timeout(Duration::from_secs(40), w.client.create_proxy_stream((name.clone(), w.target_port))).await {
+                        Err(_) => Err("did not complete within 40 s".into()),
+                        Ok(Ok(_)) => Ok(true),
+                        Ok(Err(_)) => Ok(false),
+                    }
+                } else {
+                    use tokio::io::{AsyncReadExt, AsyncWriteExt};
+                    async {
+                        let mut s = tokio::net::TcpStream::connect(&w.http).await.map_err(|e| e.to_string())?;
+                        s.write_all(format!("CONNECT {name}:{} HTTP/1.1\r\nHost: {name}:{}\r\n\r\n", w.target_port, w.target_port).as_bytes()).await.map_err(|e| e.to_string())?;
+                        let mut got = Vec::new();
+                        let mut buf = [0u8; 512];
+                        let _ = tokio::time::timeout(Duration::from_secs(40), async {
+                            while !got.windows(2).any(|x| x == b"\r\n") {
+                                match s.read(&mut buf).await {
+                                    Ok(n) if n > 0 => got.extend_from_slice(&buf[..n]),
+                                    _ => break,
+                                }
+                            }
+                        })
+                        .await;
+                        Ok(String::from_utf8_lossy(&got).lines().next().unwrap_or("").split_whitespace().nth(1) == Some("200"))
+                    }
+                    .await
+                };
+                tokio::time::sleep(Duration::from_millis(150)).await;
+                let events: Vec<Event> = anytls_rs::verif::events().into_iter().skip(before).collect();
+                let acted: Vec<String> = events.iter().filter_map(|e| match e {
+                    Event::Destination { host, port, .. } => Some(format!("decoded {host}:{port}")),
+                    Event::Dial { addr, .. } => Some(format!("dialled {addr}")),
+                    _ => None,
+                }).collect();
+                let new_accepts = w.accepts.lock().unwrap().len() - accepts_before;
+                let front = if via_http { "HttpConnect" } else { "Api" };
+                let case = json!({"kind": "c10-unencodable-name", "front": front, "name_bytes": name.len(), "name_chars": name.chars().count()});
+                rep.case(Some(hash_str(&case.to_string())));
+                rep.add("opens_for_names_longer_than_the_length_field", 1);
+                match connected {
+                    Err(e) => rep.violate("open_verdict", &format!("UnencodableName+{front}"), "open_never_completed", e, case),
+                    Ok(c) => {
+                        if c {
+                            rep.violate("open_verdict", &format!("UnencodableName+{front}"), "success_reported_on_failure", format!("a host name of {} bytes ({} characters) cannot be carried by the tunnel's one-byte length field, yet the application was told 'connected' (server-side events: {:?}, new target connections: {new_accepts})", name.len(), name.chars().count(), acted), case);
+                        } else if !acted.is_empty() || new_accepts > 0 {
+                            rep.violate("open_verdict", &format!("UnencodableName+{front}"), "server_acted_on_a_mangled_destination", format!("a host name of {} bytes ({} characters) cannot be carried by the tunnel; the open failed, but the server was made to act on something else: {:?} (new target connections: {new_accepts})", name.len(), name.chars().count(), acted), case);
+                        }
+                    }
+                }
+            }
+        }
         rep
     });
     rep.merge(out);
@@ -669,7 +728,7 @@ pub fn meta() -> CheckMeta {
         level: "exploration",
         rule: "(a) real Client/Server/SOCKS5/HTTP over loopback: accepting (banner + echo), refusing (closed port) and unresolvable (fake-DNS NXDOMAIN) targets through create_proxy_stream, SOCKS5 (also with an application that sends greeting+request+data in one segment), HTTP CONNECT and HTTP GET, 32 in flight on shared sessions; outcome compared with the scripted truth, accept log and bytes seen at the targets; a failure that only ends after > 20 s means the server's reason was never reported. (b) the real Client against a scripted TLS peer: SYNACK ok/error at 0-1.5 s (thorough: 10 s, 25 s, 20 s, never, 33 s), ok-then-error, error-then-ok, answers for unknown ids then ok, ok before the destination frame, connection close and Alert during the wait; verdict, completion time window and error text checked. (c) session level, virtual time: first-outcome-wins over SYNACK sequences with stray answers for unknown ids, and session death; plus a peer that answers each SYN the moment it has parsed it while the client's padded write is still crawling through a 1-64 byte transport. distinct_nontrivial = distinct cases. Every scripted answer is also played through the SOCKS5 front-end and the HTTP CONNECT front-end: the application is told success (reply 00 / status 200) iff the scripted server said success, inside the same time window; closing without a reply counts as failure.".into(),
         assumptions: vec!["real-time windows are generous (+4-5 s) and only decide between well-separated instants".into(), "exactly-once completion of create_proxy_stream itself is structural (an async fn returns once); for SOCKS5/HTTP a second reply after a failure reply is looked for".into()],
-        floors: vec![("scripted_peer_cases", 10), ("real_stack_opens", 30), ("successful_opens_confirmed_by_accept", 8), ("failed_opens_reported_as_failure", 10), ("first_outcome_sequences", 6), ("early_answer_opens", 15)],
+        floors: vec![("scripted_peer_cases", 10), ("real_stack_opens", 30), ("successful_opens_confirmed_by_accept", 8), ("failed_opens_reported_as_failure", 10), ("first_outcome_sequences", 6), ("early_answer_opens", 15), ("opens_for_names_longer_than_the_length_field", 8), ("scripted_peer_cases_through_a_front_end", 15)],
         exhaustive: false,
     }
 }
